@@ -209,6 +209,7 @@ type stmt struct {
 	q       string
 	nparams int
 	ptypes  []uint16
+	long    map[int][]byte
 }
 
 func (s *Server) serve(c net.Conn, id int) {
@@ -313,12 +314,23 @@ func (s *Server) serve(c net.Conn, id int) {
 				p.writePacket(errPacket(&myErr{1210, "HY000", err.Error()}))
 				continue
 			}
+			stm.long = nil
 			rs, drop := sess.Exec(stm.q, args, true)
 			if drop {
 				return
 			}
 			status = st()
 			s.writeResults(p, rs, status, true)
+		case 0x18: // send long data (no reply): stmt id, param index, chunk
+			if len(pkt) >= 7 {
+				if stm := stmts[binary.LittleEndian.Uint32(pkt[1:5])]; stm != nil {
+					if stm.long == nil {
+						stm.long = map[int][]byte{}
+					}
+					i := int(binary.LittleEndian.Uint16(pkt[5:7]))
+					stm.long[i] = append(stm.long[i], pkt[7:]...)
+				}
+			}
 		case 0x19: // stmt close
 			delete(stmts, binary.LittleEndian.Uint32(pkt[1:5]))
 		case 0x1a: // stmt reset
@@ -329,7 +341,12 @@ func (s *Server) serve(c net.Conn, id int) {
 	}
 }
 
-func parseExecArgs(pkt []byte, st *stmt) ([]interface{}, error) {
+func parseExecArgs(pkt []byte, st *stmt) (args []interface{}, err error) {
+	defer func() {
+		if x := recover(); x != nil {
+			args, err = nil, fmt.Errorf("malformed COM_STMT_EXECUTE packet: %v", x)
+		}
+	}()
 	pos := 1 + 4 + 1 + 4
 	if st.nparams == 0 {
 		return nil, nil
@@ -346,13 +363,21 @@ func parseExecArgs(pkt []byte, st *stmt) ([]interface{}, error) {
 			pos += 2
 		}
 	}
-	args := make([]interface{}, st.nparams)
+	args = make([]interface{}, st.nparams)
 	for i := 0; i < st.nparams; i++ {
 		if nullmap[i/8]&(1<<(uint(i)%8)) != 0 {
 			continue
 		}
 		t := byte(st.ptypes[i])
 		unsigned := st.ptypes[i]&0x8000 != 0
+		if data, ok := st.long[i]; ok { // value was sent ahead with COM_STMT_SEND_LONG_DATA
+			if t == tBlob {
+				args[i] = append([]byte{}, data...)
+			} else {
+				args[i] = string(data)
+			}
+			continue
+		}
 		switch t {
 		case tLongLong:
 			v := binary.LittleEndian.Uint64(pkt[pos:])
